@@ -154,6 +154,17 @@ def execOp (chk : Bool) (tok : List String) : String :=
       let stream := parseHex hx
       renderRes (fun o => match o with | none => "Exhausted" | some (z, used) => s!"{z} {used}")
         (Sampler.samplerZ chk (fbits mu) (fbits sg) (fbits sm) (stream.length / 17 + 1) stream 0)
+  | ["ffs_leaf", n, t0, t1, sg, hx] =>
+      let stream := parseHex hx
+      let sm := Float.ofBits (if parseNat n = 512 then Gen.sigminBits512 else Gen.sigminBits1024).toUInt64
+      let fuel := stream.length / 17 + 1
+      renderRes (fun o => o) (do
+        match ← Sampler.samplerZ chk (fbits t0) (fbits sg) sm fuel stream 0 with
+        | none => pure "Exhausted"
+        | some (z0, u0) =>
+          match ← Sampler.samplerZ chk (fbits t1) (fbits sg) sm fuel (stream.drop u0) 0 with
+          | none => pure "Exhausted"
+          | some (z1, u1) => pure s!"{z0} {z1} {u0 + u1}")
   | ["u32f_new", v] => renderRes toString (Zp.new chk (parseInt v))
   | ["u32f_balanced", a] => renderRes toString (Zp.balanced chk (parseNat a))
   | ["u32f_add", a, b] => toString (Zp.add (parseNat a) (parseNat b))
